@@ -19,6 +19,7 @@ import BR.Model.IK
 import BR.Model.Urdf
 import BR.Model.Dyn
 import BR.Model.SP
+import BR.Model.SPCarry
 import BR.Model.Disp
 
 namespace BR.Driver
@@ -581,6 +582,16 @@ def handle (fn : String) (a : List Float) : Option (List Float) :=
     let (ts, r) ← v3s 6 r
     let (f, _) ← takeN 6 r
     some (oV6 (sumActuatorWrenches bs ts f))
+  | "sp.carry" => do       -- W6 g3 top3 mTop mShaft cog bs18 ts18 -> the wrench carryMassCalc hands to the statics
+    let (W, r) ← v6 a
+    let (g, r) ← v3 r
+    let (tp, r) ← v3 r
+    match r with
+    | mTop :: mShaft :: cog :: r => do
+      let (bs, r) ← v3s 6 r
+      let (ts, _) ← v3s 6 r
+      some (oV6 (carryWrench W g tp mTop mShaft cog bs ts))
+    | _ => none
   | "sp.rowsT" => do       -- rows36 f6 -> wrench6
     let rec rows : Nat → List Float → Option (List (V6 Float) × List Float)
       | 0, r => some ([], r)
